@@ -268,6 +268,23 @@ func init() {
 		}
 		return &BytesV{Code: x}, false
 	})
+	reg("GoroutinesIn", func(e *Exec, fv *FuncV, args []Value, cc *ssa.CallCommon) (Value, bool) {
+		// number of live threads (other than the caller) with a frame of a function whose name contains the substring
+		sub := e.strArg(args[0])
+		n := 0
+		for _, t := range e.threads {
+			if t == e.cur || t.State == TDone || len(t.Stack) == 0 {
+				continue
+			}
+			for _, f := range t.Stack {
+				if strings.Contains(e.P.fnName(f.fn), sub) {
+					n++
+					break
+				}
+			}
+		}
+		return e.C.BVConst(64, uint64(n)), false
+	})
 	reg("ConcreteClock", func(e *Exec, fv *FuncV, args []Value, cc *ssa.CallCommon) (Value, bool) {
 		t := args[0].(*Term)
 		if !t.Const {
